@@ -69,6 +69,8 @@ def h(name, body, props, tier="quick", unwind=4, unwindset=None, stubs=None, **k
         # E2 (real storage layer over the redb model) missed its kill criterion (DESIGN.md §10.3):
         # the harnesses stay in the tree for the record but are run by no tier
         tier = "off"
+        kw["cap"] = 5400
+        kw["mem_gb"] = 40
     d = dict(name=name, body=body, props=props if isinstance(props, list) else [props], tier=tier, unwind=unwind,
              unwindset=unwindset or {}, stubs=(stubs if stubs is not None else DEFAULT_STUBS))
     d.update(kw)
@@ -98,14 +100,14 @@ bounds_family("bounds_bykey", "bounds_bykey", ["C05", "C16"], [(0, 1, "quick"), 
 # =============================================================================================
 # generic ranger code over the light instantiation L (E1): C02 put law
 # =============================================================================================
-h("put_step_n3", "ranger_l::put_step::<S, 3>", ["C02", "C01"], "quick", unwind=4, family="put_step")
-h("put_step_n4", "ranger_l::put_step::<S, 4>", ["C02", "C01"], "quick", unwind=5, family="put_step")
-h("put_commute_n4", "ranger_l::put_commute::<S, 4>", ["C02", "C04"], "quick", unwind=5, family="put_commute")
+h("put_step_n3", "ranger_l::put_step::<S, 3>", ["C02", "C01"], "quick", unwind=9, family="put_step")
+h("put_step_n4", "ranger_l::put_step::<S, 4>", ["C02", "C01"], "quick", unwind=9, family="put_step")
+h("put_commute_n4", "ranger_l::put_commute::<S, 4>", ["C02"], "quick", unwind=9, family="put_commute")
 PM_STUBS = DEFAULT_STUBS + ["cteq", "blake3empty"]
-h("pm_item_step_n3_v1", "ranger_l::pm_item_step::<S, 3, 1>", ["C01", "C03", "C12"], "quick", unwind=5, stubs=PM_STUBS, family="pm_item_step", cap=1800, mem_gb=24)
-h("pm_item_step_n4_v2", "ranger_l::pm_item_step::<S, 4, 2>", ["C01", "C03", "C12"], "thorough", unwind=6, stubs=PM_STUBS, family="pm_item_step", cap=3600, mem_gb=24)
-h("pm_init_and_silence_n2", "ranger_l::pm_init_and_silence::<S, 2>", ["C01"], "quick", unwind=4, unwindset={r"BitXorAssign>::bitxor_assign\.0": 34, r"^memcmp\.0$": 34}, stubs=PM_STUBS, family="pm_init_and_silence", cap=1800, mem_gb=24)
-h("put_commute_n5", "ranger_l::put_commute::<S, 5>", ["C02", "C04"], "thorough", unwind=6, family="put_commute")
+h("pm_item_step_n3_v1", "ranger_l::pm_item_step::<S, 3, 1>", ["C01", "C03", "C12"], "quick", unwind=9, stubs=PM_STUBS, family="pm_item_step", cap=1800, mem_gb=24)
+h("pm_item_step_n4_v2", "ranger_l::pm_item_step::<S, 4, 2>", ["C01", "C03", "C12"], "thorough", unwind=9, stubs=PM_STUBS, family="pm_item_step", cap=3600, mem_gb=24)
+h("pm_init_and_silence_n2", "ranger_l::pm_init_and_silence::<S, 2>", ["C01"], "quick", unwind=9, unwindset={r"BitXorAssign>::bitxor_assign\.0": 34, r"^memcmp\.0$": 34}, stubs=PM_STUBS, family="pm_init_and_silence", cap=1800, mem_gb=24)
+h("put_commute_n5", "ranger_l::put_commute::<S, 5>", ["C02"], "thorough", unwind=9, family="put_commute")
 
 # =============================================================================================
 # sync.rs kernels (E1): C03 validation, C01 S1-S2 orders, C07 capabilities, C09 layouts
@@ -156,7 +158,7 @@ h("c11_scheduler_k4", "engine_state::c11_scheduler::<S, 4>", ["C11"], "thorough"
 K_STUBS = DEFAULT_STUBS + ["cteq", "fmt"]
 for f1, f2, k, tier in [(1, 0, 2, "quick"), (2, 1, 2, "quick"), (1, 2, 3, "thorough"), (0, 0, 0, "quick")]:
     h("policy_matches_%d_%d_%d" % (f1, f2, k), "kernels::policy_matches::<S, %d, %d, %d>" % (f1, f2, k), ["C15", "C12"], tier,
-      unwind=4, unwindset={r"^memcmp\.0$": 5}, stubs=DEFAULT_STUBS + ["cteq"], family="policy_matches")
+      unwind=4, unwindset={r"^memcmp\.0$": 34}, stubs=DEFAULT_STUBS + ["cteq"], family="policy_matches")
 for f, tier in [(0, "thorough"), (1, "thorough"), (2, "thorough")]:
     h("filter_text_roundtrip_%d" % f, "kernels::filter_text_roundtrip::<S, %d>" % f, ["C15", "C09"], tier,
       unwind=16, stubs=DEFAULT_STUBS, family="filter_text_roundtrip", cap=1200)
@@ -179,10 +181,10 @@ h("open_replicas_step", "actor::open_replicas_step::<S>", ["C14"], "quick", unwi
 
 # C09 framing / C10 sessions (net/codec.rs)
 CODEC_STUBS = DEFAULT_STUBS + ["cteq", "time", "crypto"]
-for n, tier in [(3, "quick"), (6, "quick"), (8, "thorough")]:
+for n, tier in [(3, "quick"), (6, "thorough"), (8, "thorough")]:
     h("codec_decode_total_%d" % n, "net_codec::codec_decode_total::<S, %d>" % n, ["C09"], tier, unwind=12, stubs=CODEC_STUBS,
       family="codec_decode_total", cap=1500, mem_gb=20)
-h("codec_abort_roundtrip", "net_codec::codec_abort_roundtrip::<S>", ["C09"], "quick", unwind=12, stubs=CODEC_STUBS, cap=1500, mem_gb=20)
+h("codec_abort_roundtrip", "net_codec::codec_abort_roundtrip::<S>", ["C09"], "thorough", unwind=12, stubs=CODEC_STUBS, cap=3600, mem_gb=30)
 for sc, tier in [(0, "quick"), (1, "quick"), (2, "quick"), (3, "quick"), (4, "quick"), (5, "thorough")]:
     # kani-compiler 0.68 ICEs on the catch_unwind intrinsic reached through the drop glue of
     # std::thread::JoinHandle inside SyncHandle (DESIGN.md §10): kept for native witnesses, run by no tier
@@ -211,6 +213,10 @@ h("e2_heads_after_put", "store_fs::e2_heads_after_put::<S>", ["C13"], "quick", u
 for ff in (False, True):
     h("e2_remove_replica_%d" % ff, "store_fs::e2_remove_replica::<S, %s>" % str(ff).lower(), ["C16"], "quick", unwind=6, unwindset=UW_E2,
       stubs=E2_STUBS, family="e2_remove_replica", mem_gb=24, cap=1800)
+# parents()/get_exact() over a harness-defined records table (E1; Kani only)
+for p1, p2, tier in [(1, 0, "quick"), (1, 5, "quick"), (0, 4, "quick"), (5, 1, "thorough")]:
+    h("parents_law_%d_%d" % (p1, p2), "store_fs::parents_law::<S, %d, %d>" % (p1, p2), ["C02", "C08"], tier, unwind=6,
+      unwindset={r"^memcmp\.0$": 36}, stubs=DEFAULT_STUBS + ["cteq"], family="parents_law", mem_gb=24, cap=1500, kani_only=True, witness="d1")
 
 COMMON_ASSUMPTIONS = [
     "bytes::Bytes drop/clone replaced by no-op/deep copy (allocation lifetime abstracted; memory safety of `bytes` not claimed)",
@@ -255,19 +261,20 @@ META["C11"] = dict(
     assumptions=COMMON_ASSUMPTIONS + ["tokio Instant::now / SystemTime::now replaced by constants (only stored)",
                                        "PeerState starts Idle with a previous session result stored (a reachable state)"],
 )
+E3ENG = "E3 mirsmt: nightly MIR dump of /repo's working tree (regenerated per run), symbolic execution of the loop-free bodies, z3 4.8 cross-checked with cvc5 1.0; native witness for sat"
 META["C13"] = dict(
-    engine=KANI,
-    functions=["heads::AuthorHeads::{insert,get,len,has_news_for,encode,decode}"],
-    bounds="two authors per side (ids symbolic in one byte), u64 timestamps; size limit 0..99",
-    outside="stored heads (entry_put / migrations: E2), more than two authors",
-    assumptions=COMMON_ASSUMPTIONS,
+    engine=E3ENG,
+    functions=["store::fs::StoreInstance::entry_put::{closure#0} (the write of records / by-key / latest-per-author rows)"],
+    bounds="all paths of the closure; ghost pre-state: head row absent, or present with an arbitrary timestamp; timestamps ordered by one total preorder",
+    outside="AuthorHeads (BTreeMap: intractable for CBMC, loops for E3), migrations, has_news_for_us",
+    assumptions=["redb Table::get/insert behave as documented (modelled by the ghost row)", "the `?`/match unpacking shapes of the lookup are the ones recognised by the query (otherwise: inconclusive)"],
 )
 META["C14"] = dict(
-    engine=KANI,
-    functions=["actor::OpenReplicas::{open_with,close,get_mut,is_open,ensure_open}"],
-    bounds="one step from an arbitrary state of one document (closed, or open with 1..3 handles, sync on/off); a second document is watched",
-    outside="reply ordering, concurrent clients, shutdown hand-back, the per-action gating inside on_replica_action (async closures; E3)",
-    assumptions=COMMON_ASSUMPTIONS + ["HashMap seeds fixed (RandomState::new stub)"],
+    engine="E3 mirsmt: nightly MIR dump of /repo's working tree (regenerated per run), symbolic execution of the loop-free bodies, z3 4.8 cross-checked with cvc5 1.0; native witness for sat",
+    functions=["actor::OpenReplicas::open_with (91 MIR blocks)", "actor::OpenReplicas::close (184 MIR blocks)"],
+    bounds="one step from an arbitrary state (entry occupied with arbitrary handles/sync, or vacant), all paths of the two bodies (tracing side paths answer 'disabled'); sequences by induction on the one-step laws",
+    outside="the HashMap itself (entry API modelled: Occupied/Vacant, get_mut, insert, remove_entry), the per-action gating in on_replica_action (async closures), reply ordering, concurrent clients, shutdown hand-back (threads)",
+    assumptions=["std HashMap entry API behaves as documented", "tracing/log macros have no effect on the state"],
 )
 META["C15"] = dict(
     engine=KANI,
@@ -300,6 +307,10 @@ META["C10"] = dict(
     assumptions=["suspension points resume at the block selected by the coroutine discriminant (taken from bb0's switch)",
                  "net::handle_connection calls into_outcome after run returned, whatever the result (read from src/net.rs)"],
 )
+META["C16"].update(dict(
+    engine=KANI + " + " + E3ENG,
+    functions=META["C16"]["functions"] + ["store::fs::Store::remove_replica and its transaction closure (E3)"],
+))
 META["C12"] = dict(
     engine=KANI,
     functions=["ranger::Store::process_message on_insert contract (L)", "store::DownloadPolicy::matches"],
